@@ -17,6 +17,9 @@ enumerators and constants through `find_symbol`.
               names from the same small pool, so a callee that disturbs its caller's variables changes the result.
 """
 import gen_bp_model as B
+import io
+import sys
+
 import gen_oal_prog as G
 import oal_sexp
 import prop_C04 as P4
@@ -53,7 +56,7 @@ ASSUMPTIONS = ['bodies are type-correct, terminating and error-free under the re
                'callables do not delete instances; callables used in where clauses and derived attributes do not change the population',
                'one simple association B many - A one in the generated models (reflexive / association-class navigation is covered by C04); reals are not generated',
                'enumerator and constant names are not Python keywords; constants are canonical numerals / true|false / plain strings']
-TRUSTED_EXTRA = ['bridgepoint.oal.parse parses every body for BOTH sides',
+TRUSTED_EXTRA = ['the reference semantics gets every body as the generator built it; the tree bridgepoint.oal.parse produces for the rendered text is compared with it on every case',
                  'the population is created through Domain.new after mk_component with an IntegerGenerator installed as domain.id_generator']
 CHUNK = 300
 CASE_TIMEOUT_S = 20
@@ -206,7 +209,7 @@ def gen_model(rng, max_levels, body_stmts):
                       allow_delete=False, allow_mutation=not pure, enums=enums, consts=gen_consts, schema=SCHEMA,
                       ret_ty=sig['ret'], rec_call=rec, derived_attr=attr, create_in_loops=False,
                       max_call_sites=r.choice([1, 2, 2, 3]), derived_chain=chain, derived_nav=nav)
-        prog = g.gen_program()
+        prog = G.keyword_calls(g.gen_program(), r.fork('kw', sig['name']) if hasattr(r, 'fork') else r, lambda ns: ns.startswith('EE'))
         return prog, G.render(prog, g.uppercase)
 
     costs = {}
@@ -542,6 +545,42 @@ def add_boom(rng, callables, entries):
     return out
 
 
+def add_builtin_ees(rng, callables, entries):
+    """external entities with the key letters LOG / NVS / PERSIST: mk_component binds them to the built-in implementations
+    of bridgepoint/external_entities.py instead of interpreting their modelled bodies.  The modelled bodies used here say what
+    the built-ins do as far as a caller can tell (LOG bridges deliver nothing, NVS / PERSIST bridges deliver 0; no effect
+    on the population), so the reference semantics applies; the text LOG writes is captured and has to mention the message."""
+    r = rng
+    lvl = max([x['level'] for x in callables] or [0])
+
+    def mk(ns, name, params, ret, body):
+        h = _sig('bridge', name, ns, params, ret, True)
+        h.update(recursive=False, level=lvl, body=body, text=G.render(body), cost=1, builtin=True)
+        callables.append(h)
+    for name, ty in (('LogInfo', 'string'), ('LogFailure', 'string'), ('LogSuccess', 'string'), ('LogInteger', 'integer')):
+        mk('LOG', name, [('message', ty)], None, [['return', None]])
+    mk('NVS', 'version', [('first', 'integer'), ('second', 'integer')], 'integer', [['return', ['int', 0]]])
+    mk('NVS', 'checksum', [('first', 'integer'), ('second', 'integer')], 'integer', [['return', ['int', 0]]])
+    mk('NVS', 'format', [], 'integer', [['return', ['int', 0]]])
+    mk('PERSIST', 'commit', [], 'integer', [['return', ['int', 0]]])
+    mk('PERSIST', 'restore', [], 'integer', [['return', ['int', 0]]])
+    word = r.choice(['m1', 'hello', 'x y'])
+    num = r.choice([5, 17, 0])
+    body = [['call', ['calln', 'LOG', 'LogInfo', [['message', ['str', word]]]]],
+            ['kwcall', 'bridge', ['call', ['calln', 'LOG', 'LogInteger', [['message', ['int', num]]]]]],
+            ['assign', 'v1', ['calln', 'NVS', 'version', [['second', ['int', 2]], ['first', ['int', 1]]]]],
+            ['kwcall', 'bridge', ['assign', 'v2', ['calln', 'PERSIST', 'commit', []]]],
+            ['call', ['calln', 'LOG', r.choice(['LogSuccess', 'LogFailure']), [['message', ['str', word + '!']]]]],
+            ['return', ['bin', '+', ['bin', '+', ['var', 'v1'], ['var', 'v2']], ['int', 7]]]]
+    caller = _sig('function', 'logcall', None, [], 'integer', True)
+    caller.update(recursive=False, level=lvl + 1, body=body, text=G.render(body), cost=5, logs=[word, '%d' % num, word + '!'])
+    callables.append(caller)
+    extra = [['fn', 'logcall', {}], ['brg', 'LOG', 'LogInfo', {'message': 'py ' + word}],
+             ['brg', 'NVS', 'checksum', {'first': 3, 'second': 4}], ['brg', 'PERSIST', 'restore', {}]]
+    k = r.randrange(len(entries) + 1)
+    return entries[:k] + extra + entries[k:]
+
+
 def add_samename(rng, callables, entries, pop):
     """callables of DIFFERENT kinds / external entities / classes that share ONE name and have different bodies, all
     invoked on one component in varying order, each more than once, and from one OAL caller: every one of them has to
@@ -699,13 +738,18 @@ def _entry_sexp(e):
     return [Sym('const'), e[1]]
 
 
-def _ctx_sexp(callables):
+def _ctx_sexp(callables, diffs=None):
     classes = [[Sym('cls'), name] + [[a, Sym(t), Sym('T') if ref else Sym('F')] for a, t, ref in SCHEMA['classes'][name]]
                for name in SCHEMA['order']]
     cs = []
     tag = {'function': 'function', 'bridge': 'bridge', 'classop': 'classop', 'instop': 'instop', 'derived': 'derived'}
     for c in callables:
-        tree = oal_sexp.encode(_oal.parse(c.get('ref_text', c['text'])))
+        # the body as the reference semantics gets it: built from the GENERATOR's tree, not from a parse of its text; the
+        # parser's tree of the rendered text is compared with it (cross-check, reported as a D failure of the case)
+        tree = G.tree_sexp(c['body'])
+        theirs = oal_sexp.encode(_oal.parse(c.get('ref_text', c['text'])))
+        if not G.same_tree(tree, theirs) and diffs is not None:
+            diffs.append('%s %s: program tree %s / parsed tree %s' % (c['kind'], c['name'], dumps(tree)[:300], dumps(theirs)[:300]))
         if c['kind'] == 'function':
             cs.append([Sym('function'), c['name'], tree])
         else:
@@ -763,10 +807,12 @@ def make_case(ident, callables, enums, consts, pop, entries, shuffle_seed):
     import random
     sql = B.model_sql(bp_spec(callables, enums, consts), random.Random(shuffle_seed))
     esec, csec = _rows_in_text_order(sql, enums, consts)
-    line = dumps([Sym('calls'), FUEL, _ctx_sexp(callables), esec, csec, _state_sexp(pop)] + [_entry_sexp(e) for e in entries if not _skipped_by_spec(e)])
+    diffs = []
+    line = dumps([Sym('calls'), FUEL, _ctx_sexp(callables, diffs), esec, csec, _state_sexp(pop)] + [_entry_sexp(e) for e in entries if not _skipped_by_spec(e)])
     slim = [{k: v for k, v in c.items() if k != 'body'} for c in callables]
     return {'id': ident, 'callables': slim, 'bodies': [c['body'] for c in callables], 'enums': enums, 'consts': consts,
-            'pop': pop, 'entries': entries, 'shuffle': shuffle_seed, 'sql': sql, 'line': line, 'expect': None}
+            'pop': pop, 'entries': entries, 'shuffle': shuffle_seed, 'sql': sql, 'line': line, 'expect': None,
+            'parse_differs': diffs[0] if diffs else None}
 
 
 def canon_spec(ans):
@@ -937,6 +983,8 @@ def generate(ctx):
             entries = add_samename(r.fork('samename'), callables, entries, pop)
         else:
             entries = add_novalue(r.fork('novalue'), callables, entries, pop)
+        if i % 10 == 9:
+            entries = add_builtin_ees(r.fork('builtin'), callables, entries)
         if i % 5 == 3:
             entries = add_failing_derived(r.fork('faild'), callables, entries, pop)
         if i % 10 == 4 and entries:
@@ -1025,6 +1073,11 @@ def run_impl(case):
     raised = None
     decoy = case.get('decoy')
     half = len(case['entries']) // 2
+    logs = [w for c in case['callables'] for w in c.get('logs', [])]
+    captured = io.StringIO()
+    real_stdout = sys.stdout
+    if logs:
+        sys.stdout = captured
     try:
         for pos, e in enumerate(case['entries']):
             k = e[0]
@@ -1042,8 +1095,16 @@ def run_impl(case):
                 break
     finally:
         _CALLS = None
+        sys.stdout = real_stdout
     obs = blank_failed(case, canon_impl(domain, values))
-    return _judge(case, obs, calls, raised)
+    res = _judge(case, obs, calls, raised)
+    if logs:
+        res['stats']['builtin_external_entities'] = 1
+        missing = [w for w in logs if w not in captured.getvalue()]
+        if missing and raised is None:
+            res['d_fail'].append({'sig': 'builtin-log-output', 'what': 'the built-in LOG bridges were given %r; the text they wrote '
+                                  'does not mention %r: %r' % (logs, missing, captured.getvalue()[:300])})
+    return res
 
 
 def _run_decoy(decoy):
@@ -1118,6 +1179,9 @@ def _judge(case, obs, calls, raised):
     exp = case.get('expect')
     if exp is None:
         raise RuntimeError('case %r carries no expectation of the reference semantics' % (case.get('id'),))
+    if case.get('parse_differs'):
+        fails.append({'sig': 'parsed-tree-differs-from-program',
+                      'what': 'bridgepoint.oal.parse reads a body differently from the program it was rendered from: %s' % case['parse_differs']})
     if obs != exp:
         comp, what = 'shape', ''
         if raised is not None:
